@@ -13,6 +13,7 @@ import (
 	"bwverif/rt"
 
 	"github.com/google/badwolf/bql/table"
+	"github.com/google/badwolf/triple"
 )
 
 // cellCmp compares two cells of the same kind the way C12 states: int64 and
@@ -383,6 +384,53 @@ func c12Limit(r *rt.Rec, class, text string, w func(string) map[string]interface
 	}
 }
 
+
+// c12EdgeWhitespaceProbe re-executes the pinned witness of the known finding
+// str-edge-whitespace: ORDER BY on ID strings compares them after trimming
+// surrounding whitespace (pinned by the existing test TestStringLess), so ids
+// that differ by edge whitespace tie, and an id with a leading blank sorts by
+// its trimmed form.
+func c12EdgeWhitespaceProbe(r *rt.Rec) {
+	ctx := context.Background()
+	p := gen.MustImm("p")
+	o := triple.NewNodeObject(gen.VNodes[1])
+	data := bq.Data{"?g1": {
+		gen.MustTriple(gen.MustNode("/u", "a"), p, o), gen.MustTriple(gen.MustNode("/u", "a "), p, o),
+		gen.MustTriple(gen.MustNode("/u", " c"), p, o), gen.MustTriple(gen.MustNode("/u", "b"), p, o),
+	}}
+	for _, text := range []string{
+		`SELECT ?s, ?id FROM ?g1 WHERE { ?s ID ?id "p"@[] ?o } ORDER BY ?id;`,
+		`SELECT ?s, ?id FROM ?g1 WHERE { ?s ID ?id "p"@[] ?o } ORDER BY ?id DESC;`,
+		`SELECT ?s, ?id FROM ?g1 WHERE { ?s ID ?id "p"@[] ?o } ORDER BY ?id LIMIT "1"^^type:int64;`,
+	} {
+		t, err, pan := runQ(ctx, r, data, text)
+		r.Eval(1)
+		if pan || err != nil || t == nil {
+			r.Violation("str-edge-whitespace/unexpected-error", fmt.Sprintf("the probe query failed: %v", err), text)
+			continue
+		}
+		var ids []string
+		for _, row := range t.Rows() {
+			if c := row["?id"]; c != nil && c.S != nil {
+				ids = append(ids, *c.S)
+			}
+		}
+		desc := strings.Contains(text, "DESC")
+		for k := 0; k+1 < len(ids); k++ {
+			if (!desc && ids[k] > ids[k+1]) || (desc && ids[k] < ids[k+1]) {
+				r.Violation("str-edge-whitespace/not-sorted", fmt.Sprintf("ORDER BY on ID strings that differ in surrounding whitespace is not the order of their printed forms: %q", ids),
+					map[string]interface{}{"statement": text, "data": bq.DataStrings(data), "ids_in_result_order": ids})
+				break
+			}
+		}
+		if strings.Contains(text, "LIMIT") && (len(ids) != 1 || ids[0] != " c") {
+			r.Violation("str-edge-whitespace/limit-not-first-row", fmt.Sprintf("ORDER BY ?id LIMIT 1 returns %q, the smallest printed form is %q", ids, " c"),
+				map[string]interface{}{"statement": text, "data": bq.DataStrings(data)})
+		}
+		r.NontrivialDistinct(1)
+	}
+}
+
 func init() {
 	register(&rt.Check{
 		ID:    "C12",
@@ -396,7 +444,10 @@ func init() {
 			if tier == "thorough" {
 				n = 40000
 			}
-			return []rt.Phase{{Name: "order-limit", N: 32, Run: func(i int, r *rt.Rec) { c12Run(r, gen.Rng(seed, "c12", i), n/32) }}}
+			return []rt.Phase{
+				{Name: "edge-whitespace-probe", N: 1, Run: func(i int, r *rt.Rec) { c12EdgeWhitespaceProbe(r) }},
+				{Name: "order-limit", N: 32, Run: func(i int, r *rt.Rec) { c12Run(r, gen.Rng(seed, "c12", i), n/32) }},
+			}
 		},
 	})
 }
